@@ -242,13 +242,13 @@ func (c *MJSocialComponent) Render(w io.StringWriter) error {
 	}
 
 	// Add CSS class if specified
-	cssClass := c.Node.GetAttribute(constants.MJMLCSSClass)
+	cssClass := c.GetWrittenAttribute(constants.MJMLCSSClass)
 	if cssClass != "" {
 		td.AddAttribute(constants.AttrClass, cssClass)
 	}
 
 	// Add container background color if specified
-	containerBg := c.Node.GetAttribute("container-background-color")
+	containerBg := c.GetWrittenAttribute("container-background-color")
 	if containerBg != "" {
 		td.AddStyle(constants.CSSBackground, containerBg)
 	}
@@ -257,16 +257,16 @@ func (c *MJSocialComponent) Render(w io.StringWriter) error {
 		AddStyle(constants.CSSPadding, padding)
 
 	// Handle individual padding properties - check all sides for MRML compatibility
-	if paddingTop := c.Node.GetAttribute(constants.MJMLPaddingTop); paddingTop != "" {
+	if paddingTop := c.GetWrittenAttribute(constants.MJMLPaddingTop); paddingTop != "" {
 		td.AddStyle(constants.CSSPaddingTop, paddingTop)
 	}
-	if paddingRight := c.Node.GetAttribute(constants.MJMLPaddingRight); paddingRight != "" {
+	if paddingRight := c.GetWrittenAttribute(constants.MJMLPaddingRight); paddingRight != "" {
 		td.AddStyle(constants.CSSPaddingRight, paddingRight)
 	}
-	if paddingBottom := c.Node.GetAttribute(constants.MJMLPaddingBottom); paddingBottom != "" {
+	if paddingBottom := c.GetWrittenAttribute(constants.MJMLPaddingBottom); paddingBottom != "" {
 		td.AddStyle(constants.CSSPaddingBottom, paddingBottom)
 	}
-	if paddingLeft := c.Node.GetAttribute(constants.MJMLPaddingLeft); paddingLeft != "" {
+	if paddingLeft := c.GetWrittenAttribute(constants.MJMLPaddingLeft); paddingLeft != "" {
 		td.AddStyle(constants.CSSPaddingLeft, paddingLeft)
 	}
 
@@ -455,7 +455,7 @@ func (c *MJSocialElementComponent) GetDefaultAttribute(name string) string {
 
 func (c *MJSocialElementComponent) getAttribute(name string) string {
 	// 1. Check explicit element attribute first
-	if value := c.Node.GetAttribute(name); value != "" {
+	if value := c.GetWrittenAttribute(name); value != "" {
 		// Track font families
 		if name == constants.MJMLFontFamily {
 			c.TrackFontFamily(value)
@@ -475,7 +475,7 @@ func (c *MJSocialElementComponent) getAttribute(name string) string {
 	if c.parentSocial != nil {
 		if _, inheritable := socialElementInheritableAttributes[name]; inheritable {
 			// First check parent's explicit attribute
-			if parentValue := c.parentSocial.Node.GetAttribute(name); parentValue != "" {
+			if parentValue := c.parentSocial.GetWrittenAttribute(name); parentValue != "" {
 				debug.DebugLogWithData(
 					"social-attr",
 					"parent-explicit",
@@ -733,7 +733,7 @@ func (c *MJSocialElementComponent) Render(w io.StringWriter) error {
 	}
 
 	// Add CSS class to tr if specified on individual social element
-	cssClass := c.Node.GetAttribute("css-class")
+	cssClass := c.GetWrittenAttribute("css-class")
 	if cssClass != "" {
 		trTag := fmt.Sprintf("<tbody><tr class=\"%s\">", cssClass)
 		if _, err := w.WriteString(trTag); err != nil {
@@ -758,7 +758,7 @@ func (c *MJSocialElementComponent) Render(w io.StringWriter) error {
 	}
 
 	// Handle padding and padding-bottom specially
-	paddingBottom := c.Node.GetAttribute("padding-bottom")
+	paddingBottom := c.GetWrittenAttribute("padding-bottom")
 	if paddingBottom != "" {
 		paddingTd.AddStyle("padding", iconPadding).
 			AddStyle("padding-bottom", paddingBottom)
@@ -819,7 +819,7 @@ func (c *MJSocialElementComponent) Render(w io.StringWriter) error {
 		AddAttribute("width", widthAttr)
 
 	// Add title attribute if specified
-	title := c.Node.GetAttribute("title")
+	title := c.GetWrittenAttribute("title")
 	if title != "" {
 		img.AddAttribute("title", title)
 	}
